@@ -16,7 +16,7 @@ TRUSTED = ["gen/ext_crc.c + gcc: crc16_table is extracted by compiling lib/crc16
            "spec LhasaV.Spec.Crc (bitwise CRC-16/ARC, poly 0xA001, init 0, no xorout)"]
 ASSUMPTIONS = ["the loop of lha_crc16_buf is modelled by hand; the table is regenerated from the source"]
 RULE = ("random buffers (length 0..300, geometric), random start value, random piece schedule; plus all 256 "
-        "single-byte buffers from state 0 and from a random state (hits every table entry). C result must equal "
+        "single-byte buffers from state 0 and from a random state (hits every table entry); whole and split buffers of 4095..300001 bytes (thorough: to 1 MiB). C result must equal "
         "the bitwise spec (crcref) and the table model. non-trivial: length >= 2 and at least one split")
 
 
@@ -37,6 +37,12 @@ def gen_cases(ctx, n):
     for b in range(256):
         out.append(_mk(0, [b], [], {"single-byte"}))
         out.append(_mk(s, [b], [], {"single-byte"}))
+    big = [4095, 4096, 4097, 8193, 65537, 262143, 262144, 262145, 300001] if n < 10000 else \
+          [4095, 4096, 4097, 8193, 65536, 65537, 131073, 262143, 262144, 262145, 300001, 524289, 1048579]
+    for ln in big:
+        bs = [r.randrange(256) for _ in range(ln)]
+        out.append(_mk(r.randrange(65536), bs, [], {"len=4096+", "pieces=0"}))
+        out.append(_mk(0, bs, [r.randrange(ln), 0, 1], {"len=4096+", "pieces=3"}))
     while len(out) < n:
         ln = min(int(r.expovariate(1 / 40.0)), 4000) if r.random() < 0.9 else r.randrange(0, 3)
         bs = [r.randrange(256) for _ in range(ln)]
